@@ -241,7 +241,11 @@ func (im indexManager) searchParallel(
 	}
 	// ---------------------------
 	if len(queries) == 1 {
-		// Shortcut, no merging required
+		// Shortcut, no merging required but a composite query still answers
+		// ordered by hybrid score, e.g. a single sub-query with a negative weight
+		slices.SortStableFunc(results[0], func(a, b models.SearchResult) int {
+			return cmp.Compare(b.HybridScore, a.HybridScore)
+		})
 		return sets[0], results[0], nil
 	}
 	// ---------------------------
